@@ -257,6 +257,37 @@ def run_check(tier, seed):
                     nfail += 1
                 if nfail >= 3:
                     break
+        # ---- stream D: intra-node aggregation.  The aggregators receive the other ranks' requests, flatten, sort and merge them
+        #      (ncmpio_intra_node.c) - a second implementation of the write path that only runs with the hint
+        #      nc_num_aggrs_per_node in 1..nprocs-1 on >= 2 ranks.  Larger strided collective writes to fixed and record
+        #      variables of up to 3 different dimension lengths, ranks with empty contributions, several requests per wait.
+        nD = 60 if tier == 'thorough' else 14
+        for k in range(nD if nfail < 3 else 0):
+            nprocs = rng.choice([2, 3, 4])
+            ag = 'nc_num_aggrs_per_node=%d' % rng.range(1, nprocs - 1)
+            if k % 3 == 2:
+                p = apigen.gen_mix_program(rng, 'c10d_%d.nc' % k, nprocs, hints=ag)
+            else:
+                p = apigen.gen_rw_program(rng, 'c10d_%d.nc' % k, nprocs, hints=ag, big=True)
+            text = p.text()
+            sp = _write(wd, 'd.txt', text)
+            rc, impl, err = apicmp.run_impl(exe, sp, nprocs, wd)
+            src, spec, serr = apicmp.run_spec(sp, nprocs)
+            evals += len(impl)
+            cfg_hist['aggregation-stream-np%d' % nprocs] = cfg_hist.get('aggregation-stream-np%d' % nprocs, 0) + 1
+            desc = dict(hints=ag, nprocs=nprocs)
+            distinct.add(json.dumps(desc, sort_keys=True) + 'aggr%d' % k)
+            mism = apicmp.compare(spec, impl)
+            bv = apicmp.buffer_violations(impl)
+            if rc != 0 or mism or bv:
+                rc2, impl2, _ = apicmp.run_impl(exe, sp, nprocs, wd)
+                if rc2 == 0 and not apicmp.compare(spec, impl2) and not apicmp.buffer_violations(impl2):
+                    tie_diffs.append(('flaky', 'aggregation program', desc))
+                elif V.failing_input('C10:config-changes-result', 'with intra-node aggregation the program differs from the configuration-free specification: rc=%s %s %s' % (rc, [(a[1], a[2]) for a in mism[:3]], bv[:2]),
+                                     dict(script=text, config=desc, stderr=err[-300:]), tag='d%d' % nfail):
+                    nfail += 1
+                if nfail >= 3:
+                    break
         V.cov['evaluations'] = evals
         V.cov['distinct_nontrivial'] = len(distinct)
         V.cov['traces_validated_against_impl'] = nA + nB * ncfg
